@@ -1091,23 +1091,32 @@ XercesDocumentWrapper::BuildWrapperTreeWalker::startNode(const DOMNodeType*     
 
     theWrapperNodeNavigator->setParentNode(theParentEntry.m_node);
 
-    // If the first child has not been set, then set it
-    // now...
-    if (theParentEntry.m_navigator->getFirstChild() == 0)
+    // The XPath data model has no node for the document type declaration,
+    // so its wrapper is created (and takes its index), but it is not linked
+    // into the chain of the document's children.
+    const bool  fLinkNode =
+        node->getNodeType() != DOMNodeType::DOCUMENT_TYPE_NODE;
+
+    if (fLinkNode == true)
     {
-        assert(theSiblingEntry.m_node == 0);
+        // If the first child has not been set, then set it
+        // now...
+        if (theParentEntry.m_navigator->getFirstChild() == 0)
+        {
+            assert(theSiblingEntry.m_node == 0);
 
-        theParentEntry.m_navigator->setFirstChild(theWrapperNode);
-    }
+            theParentEntry.m_navigator->setFirstChild(theWrapperNode);
+        }
 
-    // Always set the last child...
-    theParentEntry.m_navigator->setLastChild(theWrapperNode);
+        // Always set the last child...
+        theParentEntry.m_navigator->setLastChild(theWrapperNode);
 
-    theWrapperNodeNavigator->setPreviousSibling(theSiblingEntry.m_node);
+        theWrapperNodeNavigator->setPreviousSibling(theSiblingEntry.m_node);
 
-    if (theSiblingEntry.m_navigator != 0)
-    {
-        theSiblingEntry.m_navigator->setNextSibling(theWrapperNode);
+        if (theSiblingEntry.m_navigator != 0)
+        {
+            theSiblingEntry.m_navigator->setNextSibling(theWrapperNode);
+        }
     }
 
     // Build an entry for the stacks...
@@ -1117,8 +1126,11 @@ XercesDocumentWrapper::BuildWrapperTreeWalker::startNode(const DOMNodeType*     
     // context on the parent stack...
     m_parentNavigatorStack.push_back(theCurrentEntry);
 
-    // My siblings will also need to know about me as well...
-    m_siblingNavigatorStack.push_back(theCurrentEntry);
+    if (fLinkNode == true)
+    {
+        // My siblings will also need to know about me as well...
+        m_siblingNavigatorStack.push_back(theCurrentEntry);
+    }
 
     // This will serve to mark the sibling context for my first child,
     // since it has no previous sibling.  This will be popped off
